@@ -21,27 +21,31 @@ Definition lines_eqb : list text -> list text -> bool := list_eqb text_eqb.
 
 (* the JSON values of the check's alphabet *)
 (* every kind of JSON value can be a whole record: null, booleans, numbers, strings and (here: empty) containers *)
-Inductive jval := JNull | JBool (b : bool) | JInt (n : N) | JStr (s : text) | JList | JDict.
+(* a container (array/object, possibly nested) is represented by its canonical text: the document with the white
+   space outside strings removed = json.dumps(obj, separators=(',', ':'), ensure_ascii=False) *)
+Inductive jval := JNull | JBool (b : bool) | JInt (n : N) | JStr (s : text) | JCont (canon : text).
 Definition jval_eqb (a b : jval) : bool :=
   match a, b with
-  | JNull, JNull | JList, JList | JDict, JDict => true
+  | JNull, JNull => true
+  | JCont x, JCont y => text_eqb x y
   | JBool x, JBool y => Bool.eqb x y
   | JInt x, JInt y => x =? y
   | JStr x, JStr y => text_eqb x y
   | _, _ => false
   end.
 (* as observed (strings run-length coded) *)
-Inductive jobs := JObsNull | JObsBool (b : bool) | JObsInt (n : N) | JObsStr (s : rtext) | JObsList | JObsDict.
+Inductive jobs := JObsNull | JObsBool (b : bool) | JObsInt (n : N) | JObsStr (s : rtext) | JObsCont (canon : rtext).
 Definition jobs_val (o : jobs) : jval :=
   match o with
   | JObsNull => JNull | JObsBool b => JBool b | JObsInt n => JInt n | JObsStr s => JStr (expand s)
-  | JObsList => JList | JObsDict => JDict
+  | JObsCont c => JCont (expand c)
   end.
 
 (* json.loads restricted to the alphabet the generator uses: JSON white space, digits, '"', the letters of
    null/true/false, brackets and braces, a few punctuation marks/letters that start no JSON token, and non-ASCII
    characters.  On that alphabet (and with [json_shape_ok] below) a document is: white space, then one of
-     0 | [1-9][0-9]*      '"' [^"\ and no control character]* '"'      null  true  false      [ ws* ]      { ws* }
+     0 | [1-9][0-9]*      '"' [^"\ and no control character]* '"'      null  true  false
+     [ value , ... ]      { "key" : value , ... }      (nested, white space between tokens)
    then white space; everything else raises.  None = json.loads raises; Some JNull = it returned None. *)
 Definition is_json_ws (c : N) : bool := (c =? 32) || (c =? 9) || (c =? 10) || (c =? 13).
 Definition lstrip_ws : text -> text := lstrip is_json_ws.
@@ -52,6 +56,108 @@ Definition str_char_ok (x : N) : bool := negb (x =? 34) && negb (x =? 92) && (32
 Definition lit_null : text := [110; 117; 108; 108].
 Definition lit_true : text := [116; 114; 117; 101].
 Definition lit_false : text := [102; 97; 108; 115; 101].
+
+(* recogniser for JSON values over the alphabet (no escapes, no floats, no '-'): Some rest = a value was read *)
+Fixpoint p_string (t : text) : option text :=            (* after the opening quote *)
+  match t with
+  | [] => None
+  | c :: r => if c =? 34 then Some r else if str_char_ok c then p_string r else None
+  end.
+Fixpoint span_digits (t : text) : text * text :=
+  match t with
+  | c :: r => if is_digit c then let '(d, rest) := span_digits r in (c :: d, rest) else ([], t)
+  | [] => ([], [])
+  end.
+Definition p_number (t : text) : option text :=
+  let '(d, rest) := span_digits t in
+  match d with
+  | [] => None
+  | c :: r => if (c =? 48) && negb (is_nil r) then None else Some rest
+  end.
+Fixpoint p_lit (lit t : text) : option text :=
+  match lit, t with
+  | [], _ => Some t
+  | x :: l, y :: r => if x =? y then p_lit l r else None
+  | _ :: _, [] => None
+  end.
+
+Fixpoint p_value (fuel : nat) (t : text) : option text :=
+  match fuel with
+  | O => None
+  | S f =>
+      match lstrip_ws t with
+      | [] => None
+      | c :: r =>
+          if c =? 34 then p_string r
+          else if is_digit c then p_number (c :: r)
+          else if c =? 110 then p_lit lit_null (c :: r)
+          else if c =? 116 then p_lit lit_true (c :: r)
+          else if c =? 102 then p_lit lit_false (c :: r)
+          else if c =? 91 then
+            match lstrip_ws r with
+            | d :: r' => if d =? 93 then Some r' else p_elems f r
+            | [] => None
+            end
+          else if c =? 123 then
+            match lstrip_ws r with
+            | d :: r' => if d =? 125 then Some r' else p_members f r
+            | [] => None
+            end
+          else None
+      end
+  end
+with p_elems (fuel : nat) (t : text) : option text :=       (* value (, value)* ] *)
+  match fuel with
+  | O => None
+  | S f =>
+      match p_value f t with
+      | Some r =>
+          match lstrip_ws r with
+          | d :: r' => if d =? 44 then p_elems f r' else if d =? 93 then Some r' else None
+          | [] => None
+          end
+      | None => None
+      end
+  end
+with p_members (fuel : nat) (t : text) : option text :=     (* "key" : value (, "key" : value)* } *)
+  match fuel with
+  | O => None
+  | S f =>
+      match lstrip_ws t with
+      | q :: r0 =>
+          if q =? 34 then
+            match p_string r0 with
+            | Some r1 =>
+                match lstrip_ws r1 with
+                | col :: r2 =>
+                    if col =? 58 then
+                      match p_value f r2 with
+                      | Some r3 =>
+                          match lstrip_ws r3 with
+                          | d :: r' => if d =? 44 then p_members f r' else if d =? 125 then Some r' else None
+                          | [] => None
+                          end
+                      | None => None
+                      end
+                    else None
+                | [] => None
+                end
+            | None => None
+            end
+          else None
+      | [] => None
+      end
+  end.
+
+(* the document without the white space outside strings *)
+Fixpoint squeeze (in_str : bool) (t : text) : text :=
+  match t with
+  | [] => []
+  | c :: r =>
+      if c =? 34 then c :: squeeze (negb in_str) r
+      else if in_str then c :: squeeze in_str r
+      else if is_json_ws c then squeeze in_str r else c :: squeeze in_str r
+  end.
 
 Definition mini_loads (t : text) : option jval :=
   let s := strip_ws t in
@@ -69,8 +175,11 @@ Definition mini_loads (t : text) : option jval :=
       else if text_eqb s lit_null then Some JNull
       else if text_eqb s lit_true then Some (JBool true)
       else if text_eqb s lit_false then Some (JBool false)
-      else if c =? 91 then (if text_eqb (lstrip_ws r) [93] then Some JList else None)
-      else if c =? 123 then (if text_eqb (lstrip_ws r) [125] then Some JDict else None)
+      else if (c =? 91) || (c =? 123) then
+        match p_value (2 * length s + 2) s with
+        | Some [] => Some (JCont (squeeze false s))
+        | _ => None
+        end
       else None
   end.
 
@@ -84,19 +193,12 @@ Definition jsonl_byte_ok (b : N) : bool :=
   || ((120 <=? b) && (b <=? 122))
   || ((128 <=? b) && (b <=? 253) && negb (b =? 239)).
 
-(* shapes outside the fragment (fail closed): a '[' or '{' whose next character after blanks is neither the
-   matching closer nor a line end (a non-empty container), and a digit followed by 'e' (a float) *)
+(* shapes outside the fragment (fail closed): a digit followed by 'e' (a float) *)
 Fixpoint json_shape_ok (t : text) : bool :=
   match t with
   | [] => true
   | c :: r =>
-      (if (c =? 91) || (c =? 123)
-       then match lstrip (fun x => (x =? 32) || (x =? 9)) r with
-            | [] => true
-            | d :: _ => (d =? (if c =? 91 then 93 else 125)) || (d =? 10) || (d =? 13)
-            end
-       else true)
-      && (if is_digit c then match r with d :: _ => negb (d =? 101) | [] => true end else true)
+      (if is_digit c then match r with d :: _ => negb (d =? 101) | [] => true end else true)
       && json_shape_ok r
   end.
 
